@@ -63,7 +63,7 @@ def check_step(expected_events, ups, wframes) -> list[str]:
         out.append(f"wrote {got_w}, reference expects {exp_w}")
     else:
         for g, e in zip(got_w, exp_w):
-            ok = g[0] in ("ACK", "NAK") and g[3] == e[1] and (e[0] != "ack" or g[0] == "ACK")
+            ok = g[0] in ("ACK", "NAK") and g[3] == e[1] and (e[0] != "ack" or g[0] == "ACK") and not g[1] and not g[2]   # res = nRdy = 0
             if not ok:
                 out.append(f"wrote {g}, reference expects {e}")
     return out
